@@ -513,6 +513,7 @@ type Contract struct {
 	Key      string
 	File     string
 	Requires []Clause
+	Assumes  []Clause // standing IR assumptions on the inputs: assumed at entry, not checked at call sites, listed in the trusted base
 	Ensures  []Clause
 	Ghosts   []GhostLet
 	Loops    map[int]*LoopContract
@@ -579,7 +580,7 @@ func (cs *ContractSet) LoadContractText(text, path, pkgName string) error {
 			first = t[:j]
 		}
 		switch first {
-		case "spec", "axiom", "lemma", "func", "functype", "fieldfn", "assume-contract", "requires", "ensures", "invariant", "ghost", "decreases",
+		case "spec", "axiom", "lemma", "func", "functype", "fieldfn", "assume-contract", "requires", "assumes", "ensures", "invariant", "ghost", "decreases",
 			"modifies", "keeps", "nopanic", "pure", "inline", "loop", "inlined-loop", "property", "fresh", "copyof", "callbacks-modify-nothing", "witness":
 			items = append(items, t)
 			lineNo = append(lineNo, i+1)
@@ -728,12 +729,14 @@ func (cs *ContractSet) LoadContractText(text, path, pkgName string) error {
 			}
 			cur.Lines++
 			switch kw {
-			case "requires", "ensures", "invariant":
+			case "requires", "ensures", "invariant", "assumes":
 				c, err := parseClause(rest)
 				if err != nil {
 					return fail(i, err)
 				}
 				switch kw {
+				case "assumes":
+					cur.Assumes = append(cur.Assumes, c)
 				case "requires":
 					cur.Requires = append(cur.Requires, c)
 				case "ensures":
